@@ -50,7 +50,7 @@ man = dict(
                   kind_free_text="bounded native contracts, labelled bounded in the evidence and never counted as discharged: argument-form battery, dynamic purity contract against pristine process states, differential tests of rebound external names, float64 stand-ins of the clauses a real-arithmetic proof cannot see")],
     checks=checks,
     not_applicable=na,
-    notes="Contract-based deductive verification; no Python deductive verifier is installed, so the VC generator is built here (DESIGN.md section 1). Exit codes: 0 held, 1 VIOLATION, 2 undecided, 3 checker error. DESIGN.md sections 10-12 and 14 are the build reports (first build, harder seeds + harmless refactorings, dependency defects + correct optimisations, edge inputs + floating-point-only changes + structural refactorings); a check never hangs (watchdog: VERIF_SECTION_BUDGET / VERIF_TOTAL_BUDGET seconds, unfinished work is undecided); KNOWN_FINDINGS.txt lists the genuine defects (fixed: F1-F8, F12-F15 as `fix:` commits in /repo; known: F9-F11). Self-tests: `./check selftest` (152 seeded defects: 151 must exit 1, C15h is the one the machinery does not report and must exit 3; 64 harmless patches must exit 0), tools/harmless_matrix.sh (every harmless patch against all 19 checks).")
+    notes="Contract-based deductive verification; no Python deductive verifier is installed, so the VC generator is built here (DESIGN.md section 1). Exit codes: 0 held, 1 VIOLATION, 2 undecided, 3 checker error. DESIGN.md sections 10-12, 14 and 15 are the build reports (first build, harder seeds + harmless refactorings, dependency defects + correct optimisations, edge inputs + floating-point-only changes + structural refactorings); a check never hangs (watchdog: VERIF_SECTION_BUDGET / VERIF_TOTAL_BUDGET seconds, unfinished work is undecided); KNOWN_FINDINGS.txt lists the genuine defects (fixed: F1-F8, F12-F15 as `fix:` commits in /repo; known: F9-F11). Self-tests: `./check selftest` (160 seeded defects: 159 must exit 1, C15h is the one the machinery does not report and must exit 3; 72 harmless patches must exit 0), tools/harmless_matrix.sh (every harmless patch against all 19 checks).")
 json.dump(man, open(os.path.join(HERE, "MANIFEST.json"), "w"), indent=1)
 try:
     sys.path.insert(0, os.path.join(HERE, "_deps"))
